@@ -87,10 +87,26 @@ fn chg_name(c: &ChangeType) -> &'static str {
     }
 }
 
+/// Name tables chosen by H_BISYNC_NAMES: the model is indifferent to names, the implementation must be too.  The adversarial
+/// tables put names side by side that a name-derived working file, backup or conflict name could collide with.
+fn adv_table() -> Option<[&'static str; 5]> {
+    match std::env::var("H_BISYNC_NAMES").ok().as_deref() {
+        Some("adv1") => Some(["r.txt", "r.tmp", "sub/r", "sub/r.tmp", "r"]),
+        Some("adv2") => Some(["r.txt", "r.txt.tmp", "sub/r", "sub/.r.tmp", ".r.txt.tmp"]),
+        Some("adv3") => Some(["r.txt", "r.txt~", "sub/r.bak", "sub/r", "r.txt.sy.tmp"]),
+        _ => None,
+    }
+}
+
 fn name_of(id: u64) -> String {
     // model ids: base paths are multiples of 4; 16 p + 4 k + 1 / + 2 are the conflict names of p
     if id % 4 == 1 || id % 4 == 2 {
         unreachable!("edits never address conflict names");
+    }
+    if let Some(t) = adv_table() {
+        if id >= 4 && id <= 20 && id % 4 == 0 {
+            return t[(id / 4 - 1) as usize].to_string();
+        }
     }
     let base = if id % 8 == 0 { format!("f{}", id) } else { format!("f{}.txt", id) };
     if id % 3 == 0 {
@@ -100,8 +116,48 @@ fn name_of(id: u64) -> String {
     }
 }
 
+/// one ".conflict-<ts>[-<n>]-source|dest" segment at the start of `s`: (ts, n, side, rest)
+fn parse_segment(s: &str) -> Option<(u64, u64, u64, &str)> {
+    let s = s.strip_prefix(".conflict-")?;
+    let d1 = s.find(|c: char| !c.is_ascii_digit())?;
+    let ts: u64 = s[..d1].parse().ok()?;
+    let mut rest = &s[d1..];
+    let mut n = 0u64;
+    if let Some(r) = rest.strip_prefix('-') {
+        let d2 = r.find(|c: char| !c.is_ascii_digit()).unwrap_or(r.len());
+        if d2 > 0 {
+            n = r[..d2].parse().ok()?;
+            rest = &r[d2..];
+        }
+    }
+    if let Some(r) = rest.strip_prefix("-source") {
+        Some((ts, n, 1, r))
+    } else if let Some(r) = rest.strip_prefix("-dest") {
+        Some((ts, n, 2, r))
+    } else {
+        None
+    }
+}
+
 /// a real relative name: base id and the chain of conflict suffixes (time stamp, counter, side)
 fn parse_name(rel: &str) -> Option<(u64, Vec<(u64, u64, u64)>)> {
+    if let Some(t) = adv_table() {
+        // <stem>(.conflict-..)*[.<ext>] : cut the segments out, what remains is the base name
+        let (head, mut tail) = match rel.find(".conflict-") {
+            Some(i) => (&rel[..i], &rel[i..]),
+            None => (rel, ""),
+        };
+        let mut chain = Vec::new();
+        while tail.starts_with(".conflict-") {
+            let (ts, n, side, rest) = parse_segment(tail)?;
+            chain.push((ts, n, side));
+            tail = rest;
+        }
+        let base = format!("{}{}", head, tail);
+        let j = t.iter().position(|x| *x == base)?;
+        return Some((4 * (j as u64 + 1), chain));
+    }
+
     let base = rel.rsplit('/').next().unwrap();
     let base = base.strip_suffix(".txt").unwrap_or(base);
     let mut parts = base.split(".conflict-");
